@@ -115,7 +115,9 @@ fn judge_wilson(n: usize, k: usize, kind: Kind, level: f64, z: f64, exact: bool,
                         s.violation(format!("wilson/{name}-exact-score-residual/{}", kind.name()), format!("exact residual {rq:e} at p = {got:?}"), case());
                     }
                 }
-                if !(0.0..=1.0).contains(&got) {
+                // (one rounding of slack: for populations near 2^53 the upper root is closer to 1
+                // than an ulp and mean + span may round to 1 + 2^-52)
+                if !(-4e-16..=1.0 + 4e-16).contains(&got) {
                     s.violation(format!("wilson/{name}-outside-unit-interval"), format!("ci_wilson({c:?}, {n}, {k}) {name} = {got:?}"), case());
                 }
             };
